@@ -29,6 +29,10 @@ func runExtras(r *Runner, p *Property, tier string) ([]*LedgerEntry, []string) {
 			out = append(out, specLemmaObligations(r)...)
 		case "dv-lemmas":
 			out = append(out, dvLemmaObligations(r)...)
+		case "fp-equiv":
+			out = append(out, r.equivObligations()...)
+		case "fp-tables":
+			out = append(out, r.eng.fpTableObligations()...)
 		case "global-store-scan":
 			out = append(out, globalStoreScan(r.eng)...)
 		}
